@@ -58,7 +58,7 @@ def dtcwt_cases(ck, n, ops):
     S = 16 if q else 32
     for it in range(n):
         op = ops[it % len(ops)]
-        nb, c = rng.choice([(1, 1), (1, 1), (2, 1), (1, 2), (2, 2)])
+        nb, c = gen.batch_channels(rng)
         sym = rng.choice([1, 1, 1, 0])
         hp = rng.randint(0, 1); skip = rng.choice([0, 0, 1])
         m = 2 * rng.randint(1, 9)
